@@ -52,11 +52,17 @@ Theorem C40_directive_roundtrip_refuted :
   (exists d, serialises d = true /\ roundtrips d = false /\
              d_patch d = Some (asc "a" ++ [LF] ++ BEGIN_BUNDLE ++ [LF] ++ asc "b" ++ [LF])).
 Proof.
-  split; [eexists; split; [|split]; [apply roundtrip_refuted_cr|apply roundtrip_refuted_cr|reflexivity]|].
-  split; [eexists; split; [|split]; [apply roundtrip_refuted_backslash|apply roundtrip_refuted_backslash|reflexivity]|].
-  split; [eexists; split; [|split]; [apply roundtrip_refuted_negative_minutes|apply roundtrip_refuted_negative_minutes|reflexivity]|].
-  split; [eexists; split; [|split]; [apply roundtrip_refuted_subsecond|apply roundtrip_refuted_subsecond|reflexivity]|].
-  eexists; split; [|split]; [apply roundtrip_refuted_marker|apply roundtrip_refuted_marker|reflexivity].
+  split; [exists (with_message (asc "a" ++ [CR]));
+          exact (conj (proj1 roundtrip_refuted_cr) (conj (proj2 roundtrip_refuted_cr) eq_refl))|].
+  split; [exists (with_message (repeat 120%N 58 ++ [BSL] ++ asc "yyyy"));
+          exact (conj (proj1 roundtrip_refuted_backslash) (conj (proj2 roundtrip_refuted_backslash) eq_refl))|].
+  split; [exists (with_zone 0 (-12600));
+          exact (conj (proj1 roundtrip_refuted_negative_minutes)
+                      (conj (proj2 roundtrip_refuted_negative_minutes) eq_refl))|].
+  split; [exists (with_zone 750000000 3600);
+          exact (conj (proj1 roundtrip_refuted_subsecond) (conj (proj2 roundtrip_refuted_subsecond) eq_refl))|].
+  exists (with_payload (Some (asc "a" ++ [LF] ++ BEGIN_BUNDLE ++ [LF] ++ asc "b" ++ [LF])) (Some (asc "QUJD"))).
+  exact (conj (proj1 roundtrip_refuted_marker) (conj (proj2 roundtrip_refuted_marker) eq_refl)).
 Qed.
 Print Assumptions C40_directive_roundtrip_refuted.
 
@@ -73,8 +79,11 @@ Theorem C40_directive_text_roundtrip_partial :
   (exists d, roundtrips_text d = true /\ d_patch d = Some (asc "+a" ++ [CR; LF] ++ asc "-b" ++ [CR] ++ asc "c" ++ [LF])) /\
   (exists d, dir_ok d = true /\ roundtrips d = true /\ roundtrips_text d = false).
 Proof.
-  split; [eexists; split; [apply text_roundtrip_example|reflexivity]|].
-  eexists. apply text_roundtrip_refuted_no_final_newline.
+  split.
+  - exists (with_payload (Some (asc "+a" ++ [CR; LF] ++ asc "-b" ++ [CR] ++ asc "c" ++ [LF])) (Some (asc "QUJD"))).
+    exact (conj text_roundtrip_example eq_refl).
+  - exists (with_payload (Some (asc "abc")) (Some (asc "QUJD"))).
+    exact text_roundtrip_refuted_no_final_newline.
 Qed.
 Print Assumptions C40_directive_text_roundtrip_partial.
 
@@ -82,7 +91,7 @@ Example C40_dir_ok_satisfiable :
   dir_ok base_directive = true /\
   dir_ok (with_message (asc "caf" ++ [195; 169]%N ++ asc " " ++ repeat 120%N 70 ++ asc " x-y/z  " ++ [LF]
                         ++ asc "C:\dir\file" ++ [LF; 9%N] ++ asc "tab ")) = true.
-Proof. split; [apply dir_ok_example|apply dir_ok_example_long]. Qed.
+Proof. exact (conj (proj1 dir_ok_example) dir_ok_example_long). Qed.
 
 (* ---- tampering ------------------------------------------------------------------------------ *)
 (* Full statement "changing any byte of the patch block makes verification fail" is false:
